@@ -230,6 +230,10 @@ def classify_conds(prog, pe, white_atoms):
             kind["target"] = c[1][0]
         elif d0 in white_atoms:
             kind["white"] = truth
+        elif strip_cast(d0)[0] == "call" and strip_cast(d0)[1] == MF.MOVE + "get_side_to_move" and c[0] in ("in", "notin") and len(c[1]) == 1 and c[1][0] in (0, 1):
+            # `match colour { WHITE => .., _ => .. }`: a switch on the recorded side itself (WHITE = 0)
+            is_val = c[0] == "in"
+            kind["white"] = (c[1][0] == 0) == is_val
         elif d0[0] == "bin" and d0[1] in ("Eq", "Ne"):
             a, bb_ = strip_cast(d0[2]), strip_cast(d0[3])
             cst = a if a[0] == "c" else bb_ if bb_[0] == "c" else None
@@ -303,10 +307,11 @@ def cancel(terms):
     return out
 
 
-def xor_table(prog, acc_idx):
+def xor_table(prog, acc_idx, fn=None):
     """paths of zobrist_xor: [(kind, equalities, full toggles, pawn toggles)] with toggles normalised to
-    ('piece', role, piece, square) | ('right', role, side) | ('ep', getter) | ('side',)"""
-    f = prog.fns[BB + "zobrist_xor"]
+    ('piece', role, piece, square) | ('right', role, side) | ('ep', getter) | ('side',).
+    With `fn` (a function of a Move returning one hash): the same for that function, its value in both slots."""
+    f = fn if fn is not None else prog.fns[BB + "zobrist_xor"]
     try:
         pes = returning_paths(f, limit=200000)
     except (NotLoopFree, OverflowError) as e:
@@ -341,6 +346,8 @@ def xor_table(prog, acc_idx):
     out = []
     for pe in pes:
         r = pe.ret()
+        if fn is not None:
+            r = ("agg", "tuple", "", (r, r))
         if not (r[0] == "agg" and r[1] == "tuple" and len(r[3]) == 2):
             raise FxError("zobrist_xor does not return a pair")
         full = cancel([x for x in (norm_term(t) for t in xor_terms(r[3][0])) if x is not None])
@@ -368,3 +375,26 @@ def base_name_sq(sq):
     if isinstance(b, str):
         return (b, off)
     return (b[1].rsplit("::", 1)[-1] if b[0] == "call" else show(b), off)
+
+
+def compatible_paths(a, b):
+    """can one move satisfy the conditions of both paths? a, b = (kind, eqs, ...) as produced by xor_table"""
+    ka, ea = a[0], a[1]
+    kb, eb = b[0], b[1]
+    for k in ("castle", "ep", "promo", "white", "target"):
+        if ka.get(k) is not None and kb.get(k) is not None and ka[k] != kb[k]:
+            return False
+    for g, v in ea.items():
+        if g.startswith("ne:"):
+            if g[3:] in eb and eb[g[3:]] in v:
+                return False
+        else:
+            if g in eb and eb[g] != v:
+                return False
+            if "ne:" + g in eb and v in eb["ne:" + g]:
+                return False
+    pa, pb = a[4], b[4]
+    for n, v in pa.items():
+        if n in pb and pb[n] != v:
+            return False
+    return True
